@@ -39,6 +39,7 @@ def correspondence(ctx):
     for name in S.ALL:
         rng = ctx.rng("c04", name)
         bench = B.Bench(name, rng, size=2 * L + 6, need_hash=False)
+        B.probe_unrankable(ctx, "C04", bench)
         if not bench.ok(2 * L + 1):
             ctx.stream("sorted-exhaustive:" + name)["skipped"] = "pool too small (%d classes)" % bench.pool.n()
             ctx.exhaustive = False
